@@ -280,6 +280,8 @@ def r2_rl_bootstrap(ctx: Context, product_decided: bool = False) -> None:
         got = str(n.rat(leaf))
         first_batch = None
         for tst, truth in conds:
+            while isinstance(tst, ast.UnaryOp) and isinstance(tst.op, ast.Not):      # `not (x is not None)` under truth t is `x is not None` under not t
+                tst, truth = tst.operand, not truth
             if src(tst) in test_texts:
                 first_batch = truth == test_texts[src(tst)]
         if first_batch is None:
